@@ -25,7 +25,16 @@ func atomsD2() []*T {
 	s := func(x string) Item { return Item{K: 0, S: x} }
 	rg := func(a, b string) Item { return Item{K: 1, S: a, To: b} }
 	cl := func(n string) Item { return Item{K: 2, S: n} }
-	return []*T{
+	var perClass []*T // every character class alone as the only item of `in` and of `not in`
+	for _, n := range []string{"any", "digit", "upper", "lower", "letter", "whitespace"} {
+		if n != "digit" { // `in digit` alone: already among the lists below as `in digit, '_'`; keep the list short
+			perClass = append(perClass, in(false, cl(n)))
+		}
+		if n != "whitespace" {
+			perClass = append(perClass, in(true, cl(n)))
+		}
+	}
+	return append(perClass, []*T{
 		lit("a"), lit("A"), lit("ab"), lit("1"), lit(" "), lit("\n"), lit("_"),
 		{K: CASELESS, S: "a"}, {K: CASELESS, S: "aB"},
 		{K: NOTLIT, S: "a"}, {K: NOTLIT, S: "\n"},
@@ -35,7 +44,7 @@ func atomsD2() []*T {
 		in(false, cl("digit"), s("_")), in(false, cl("upper"), cl("lower")), in(false, Item{K: 3, S: "a"}, rg("0", "1")),
 		in(false, s("1"), s("a"), s("ab")), in(false, s("!"), s("ab"), s("a"), s("abA")), in(false, cl("digit"), s("a"), s("a ")),
 		in(true, s("a"), s("b")), in(true, rg("a", "z")), in(true, cl("digit"), s(" ")), in(true, cl("whitespace")), in(true, s("\n")),
-	}
+	}...)
 }
 
 const alphaD2 = "aAb1 \n_!"
